@@ -1473,56 +1473,350 @@ func ruleArityCheckedBeforeResolution(c *core.Ctx) {
 func ruleDocstringQuotePadding(c *core.Ctx) {
 	const rule = "N6"
 	c.Rule(rule, "python/common.WriteDocstring: a comment that ends (starts) with a double quote gets a space appended (prepended), under that test alone, before it is written between the triple-quote delimiters; backslashes and embedded delimiters are escaped first", 4)
-	rows, d, _ := geeRows(c, "internal/python/common", "WriteDocstring")
-	if d == nil {
+	f0, d0, p := c.Func("internal/python/common", "WriteDocstring")
+	if d0 == nil {
 		c.Undecided(rule, "anchor/python/common.WriteDocstring", 0, "anchor not found")
 		return
 	}
-	// the comment is written into a regular string literal: backslashes and the delimiter are escaped first, on every
-	// path, before anything is emitted (or the literal is a raw one)
-	firstEmit := 1 << 30
-	raw := false
-	for _, r := range rows {
-		if r.Kind == "emit" && r.Seq < firstEmit {
-			firstEmit = r.Seq
-			raw = strings.HasPrefix(strings.TrimSpace(r.Tmpl), `r"""`) || strings.HasPrefix(strings.TrimSpace(r.Tmpl), `R"""`)
+	info := p.TypesInfo
+	// the writer and the same-package helpers it calls (three levels)
+	scope := []*ast.FuncDecl{d0}
+	seen := map[*types.Func]bool{f0: true}
+	for i := 0; i < len(scope) && i < 12; i++ {
+		for _, cs := range c.Calls(scope[i]) {
+			if cs.Callee == nil || cs.Callee.Pkg() != p.Types || seen[cs.Callee.Origin()] {
+				continue
+			}
+			seen[cs.Callee.Origin()] = true
+			if fd := c.Decl(cs.Callee.Origin()); fd != nil && fd.Body != nil {
+				scope = append(scope, fd)
+			}
 		}
 	}
-	for _, e := range []struct{ key, from, why string }{
-		{"backslashes escaped", `"\\"`, "a backslash of the comment is interpreted by Python: `C:\\users` is an invalid \\u escape and the generated module does not compile"},
-		{"embedded delimiter escaped", `"\"\"\""`, "a `\"\"\"` inside the comment closes the docstring early and the rest of the comment is parsed as code"},
-	} {
-		ok := false
-		var at = d.Pos()
-		for _, r := range rows {
-			if strings.HasPrefix(r.Kind, "assign:") && r.Tmpl == "CALL:strings.ReplaceAll" && len(r.Args) == 3 && r.Args[1] == e.from && len(r.Guards) == 0 && r.Seq < firstEmit {
-				ok, at = true, r.Pos
+	constStr := func(e ast.Expr) (string, bool) {
+		if tv, ok := info.Types[e]; ok && tv.Value != nil && tv.Value.Kind() == constant.String {
+			return constant.StringVal(tv.Value), true
+		}
+		return "", false
+	}
+	isEmptyTest := func(e ast.Expr) bool {
+		be, ok := ast.Unparen(e).(*ast.BinaryExpr)
+		if !ok || (be.Op != token.EQL && be.Op != token.NEQ && be.Op != token.GTR) {
+			return false
+		}
+		if v, ok := constStr(be.Y); ok && v == "" {
+			return true
+		}
+		if _, isLen := lenArg(info, be.X); isLen {
+			if v, ok := constInt(info, be.Y); ok && v == 0 {
+				return true
 			}
+		}
+		return false
+	}
+	// conditions a statement is nested under inside its function (emptiness tests do not count)
+	guardsOf := func(d *ast.FuncDecl, n ast.Node) ([]ast.Expr, bool) {
+		var out []ast.Expr
+		plain := true
+		var stack []ast.Node
+		ast.Inspect(d.Body, func(x ast.Node) bool {
+			if x == nil {
+				stack = stack[:len(stack)-1]
+				return true
+			}
+			stack = append(stack, x)
+			if x == n {
+				for i, a := range stack[:len(stack)-1] {
+					switch y := a.(type) {
+					case *ast.IfStmt:
+						if stack[i+1] == ast.Node(y.Body) {
+							if !isEmptyTest(y.Cond) {
+								out = append(out, y.Cond)
+							}
+						} else if stack[i+1] != ast.Node(y.Init) && stack[i+1] != ast.Node(y.Cond) {
+							plain = false // an else branch
+						}
+					case *ast.ForStmt, *ast.RangeStmt, *ast.SwitchStmt, *ast.TypeSwitchStmt, *ast.FuncLit:
+						plain = false
+					}
+				}
+			}
+			return true
+		})
+		return out, plain
+	}
+	// --- escaping
+	escaped := map[string]token.Pos{}
+	noteReplacer := func(args []ast.Expr, at token.Pos) {
+		for i := 0; i+1 < len(args); i += 2 {
+			from, ok1 := constStr(args[i])
+			to, ok2 := constStr(args[i+1])
+			if ok1 && ok2 && to != from && to != "" {
+				escaped[from] = at
+			}
+		}
+	}
+	replacerArgs := func(e ast.Expr) []ast.Expr {
+		// the NewReplacer(...) call a *strings.Replacer expression comes from: a call, or a variable initialised once
+		if ce, ok := ast.Unparen(e).(*ast.CallExpr); ok {
+			if f := core.Callee(info, ce); f != nil && core.FullName(f) == "strings.NewReplacer" {
+				return ce.Args
+			}
+			return nil
+		}
+		id, ok := ast.Unparen(e).(*ast.Ident)
+		if !ok {
+			return nil
+		}
+		obj := info.ObjectOf(id)
+		var args []ast.Expr
+		n := 0
+		for _, file := range p.Syntax {
+			ast.Inspect(file, func(x ast.Node) bool {
+				switch y := x.(type) {
+				case *ast.ValueSpec:
+					for i, nm := range y.Names {
+						if info.Defs[nm] == obj && i < len(y.Values) {
+							n++
+							if ce, ok := ast.Unparen(y.Values[i]).(*ast.CallExpr); ok {
+								if f := core.Callee(info, ce); f != nil && core.FullName(f) == "strings.NewReplacer" {
+									args = ce.Args
+								}
+							}
+						}
+					}
+				case *ast.AssignStmt:
+					for i, l := range y.Lhs {
+						if li, ok := l.(*ast.Ident); ok && info.ObjectOf(li) == obj {
+							n++
+							if len(y.Lhs) == len(y.Rhs) {
+								if ce, ok := ast.Unparen(y.Rhs[i]).(*ast.CallExpr); ok {
+									if f := core.Callee(info, ce); f != nil && core.FullName(f) == "strings.NewReplacer" {
+										args = ce.Args
+									}
+								}
+							}
+						}
+					}
+				}
+				return true
+			})
+		}
+		if n != 1 {
+			return nil
+		}
+		return args
+	}
+	for _, d := range scope {
+		ast.Inspect(d.Body, func(n ast.Node) bool {
+			ce, ok := n.(*ast.CallExpr)
+			if !ok {
+				return true
+			}
+			f := core.Callee(info, ce)
+			if f == nil {
+				return true
+			}
+			var pairs []ast.Expr
+			switch core.FullName(f) {
+			case "strings.ReplaceAll":
+				if len(ce.Args) == 3 {
+					pairs = ce.Args[1:]
+				}
+			case "(strings.Replacer).Replace", "(*strings.Replacer).Replace":
+				if se, ok := ast.Unparen(ce.Fun).(*ast.SelectorExpr); ok {
+					pairs = replacerArgs(se.X)
+				}
+			}
+			if pairs == nil {
+				return true
+			}
+			if gs, plain := guardsOf(d, ce); len(gs) == 0 && plain {
+				noteReplacer(pairs, ce.Pos())
+			}
+			return true
+		})
+	}
+	raw := false
+	for _, d := range scope {
+		ast.Inspect(d.Body, func(n ast.Node) bool {
+			if e, ok := n.(ast.Expr); ok {
+				if v, ok := constStr(e); ok && (strings.HasPrefix(v, `r"""`) || strings.HasPrefix(v, `R"""`)) {
+					raw = true
+				}
+			}
+			return true
+		})
+	}
+	for _, e := range []struct{ key, from, why string }{
+		{"backslashes escaped", "\\", "a backslash of the comment is interpreted by Python: `C:\\users` is an invalid \\u escape and the generated module does not compile"},
+		{"embedded delimiter escaped", `"""`, "a `\"\"\"` inside the comment closes the docstring early and the rest of the comment is parsed as code"},
+	} {
+		at, ok := escaped[e.from]
+		if !ok {
+			at = d0.Pos()
 		}
 		if e.key == "backslashes escaped" && raw {
 			ok = true
 		}
 		c.Check(ok, rule, "WriteDocstring/"+e.key, at, "escaped unconditionally before the literal is written", e.why)
 	}
-	type want struct{ key, tmpl, test string }
-	for _, w := range []want{
-		{"trailing quote padded", "%s ", `strings.HasSuffix(comment, "\"")`},
-		{"leading quote padded", " %s", `strings.HasPrefix(comment, "\"")`},
-	} {
-		var hit *gee.Row
-		for i := range rows {
-			r := &rows[i]
-			if strings.HasPrefix(r.Kind, "assign:") && r.Tmpl == w.tmpl {
-				hit = r
+	// --- padding
+	resolveBool := func(d *ast.FuncDecl, e ast.Expr) ast.Expr {
+		for i := 0; i < 3; i++ {
+			id, ok := ast.Unparen(e).(*ast.Ident)
+			if !ok {
+				break
+			}
+			r := singleDefRHS(info, d.Body, id)
+			if r == ast.Expr(id) {
+				break
+			}
+			e = r
+		}
+		return ast.Unparen(e)
+	}
+	isQuote := func(e ast.Expr) bool {
+		if tv, ok := info.Types[e]; ok && tv.Value != nil {
+			if tv.Value.Kind() == constant.String {
+				return constant.StringVal(tv.Value) == "\""
+			}
+			if v, exact := constant.Int64Val(tv.Value); exact {
+				return v == '"'
 			}
 		}
-		key := "WriteDocstring/" + w.key
-		if hit == nil {
-			c.Bad(rule, key, d.Pos(), "the docstring writer no longer pads a comment whose "+strings.Fields(w.key)[0]+" character is a double quote: `\"\"\"…\"\"\"\"` is emitted and the module does not parse")
+		return false
+	}
+	// quoteTest: "leading" / "trailing" when e is exactly one test of the first / last character against a double quote
+	quoteTest := func(d *ast.FuncDecl, e ast.Expr) string {
+		switch x := resolveBool(d, e).(type) {
+		case *ast.CallExpr:
+			if f := core.Callee(info, x); f != nil && len(x.Args) == 2 && isQuote(x.Args[1]) {
+				switch core.FullName(f) {
+				case "strings.HasPrefix":
+					return "leading"
+				case "strings.HasSuffix":
+					return "trailing"
+				}
+			}
+		case *ast.BinaryExpr:
+			if x.Op != token.EQL {
+				return ""
+			}
+			l, r := ast.Unparen(x.X), ast.Unparen(x.Y)
+			if isQuote(l) {
+				l, r = r, l
+			}
+			if !isQuote(r) {
+				return ""
+			}
+			switch ix := l.(type) {
+			case *ast.IndexExpr:
+				if v, ok := constInt(info, ix.Index); ok && v == 0 {
+					return "leading"
+				}
+				if be, ok := ast.Unparen(ix.Index).(*ast.BinaryExpr); ok && be.Op == token.SUB {
+					if _, isLen := lenArg(info, be.X); isLen {
+						if v, ok := constInt(info, be.Y); ok && v == 1 {
+							return "trailing"
+						}
+					}
+				}
+			case *ast.SliceExpr:
+				if ix.Low == nil && ix.High != nil {
+					if v, ok := constInt(info, ix.High); ok && v == 1 {
+						return "leading"
+					}
+				}
+				if ix.High == nil && ix.Low != nil {
+					if be, ok := ast.Unparen(ix.Low).(*ast.BinaryExpr); ok && be.Op == token.SUB {
+						if _, isLen := lenArg(info, be.X); isLen {
+							if v, ok := constInt(info, be.Y); ok && v == 1 {
+								return "trailing"
+							}
+						}
+					}
+				}
+			}
+		}
+		return ""
+	}
+	// padKind: "leading" for `x = " " + x`, "trailing" for `x = x + " "` / `x += " "` (Sprintf forms included)
+	padKind := func(as *ast.AssignStmt) string {
+		if len(as.Lhs) != 1 || len(as.Rhs) != 1 {
+			return ""
+		}
+		isSpace := func(e ast.Expr) bool { v, ok := constStr(e); return ok && v == " " }
+		if as.Tok == token.ADD_ASSIGN && isSpace(as.Rhs[0]) {
+			return "trailing"
+		}
+		switch r := ast.Unparen(as.Rhs[0]).(type) {
+		case *ast.BinaryExpr:
+			if r.Op == token.ADD {
+				if isSpace(r.X) && !isSpace(r.Y) {
+					return "leading"
+				}
+				if isSpace(r.Y) && !isSpace(r.X) {
+					return "trailing"
+				}
+			}
+		case *ast.CallExpr:
+			if f := core.Callee(info, r); f != nil && core.FullName(f) == "fmt.Sprintf" && len(r.Args) == 2 {
+				if v, ok := constStr(r.Args[0]); ok {
+					switch v {
+					case " %s":
+						return "leading"
+					case "%s ":
+						return "trailing"
+					}
+				}
+			}
+		}
+		return ""
+	}
+	type padSite struct {
+		pos    token.Pos
+		guards []ast.Expr
+		plain  bool
+		d      *ast.FuncDecl
+	}
+	pads := map[string][]padSite{}
+	for _, d := range scope {
+		ast.Inspect(d.Body, func(n ast.Node) bool {
+			as, ok := n.(*ast.AssignStmt)
+			if !ok {
+				return true
+			}
+			if k := padKind(as); k != "" {
+				gs, plain := guardsOf(d, as)
+				pads[k] = append(pads[k], padSite{as.Pos(), gs, plain, d})
+			}
+			return true
+		})
+	}
+	for _, side := range []string{"trailing", "leading"} {
+		key := "WriteDocstring/" + side + " quote padded"
+		sites := pads[side]
+		if len(sites) == 0 {
+			c.Bad(rule, key, d0.Pos(), "the docstring writer no longer pads a comment whose "+side+" character is a double quote: `\"\"\"…\"\"\"\"` is emitted and the module does not parse")
 			continue
 		}
-		good := len(hit.Guards) == 1 && strings.ReplaceAll(hit.Guards[0], " ", "") == strings.ReplaceAll(w.test, " ", "")
-		c.Check(good, rule, key, hit.Pos, "padded under `"+w.test+"` alone", "the padding is applied only under `"+strings.Join(hit.Guards, " ∧ ")+"`: for the other comments with a "+strings.Fields(w.key)[0]+" double quote the closing delimiter becomes `\"\"\"\"` (SyntaxError: unterminated string literal in the generated module)")
+		var good *padSite
+		for i := range sites {
+			st := &sites[i]
+			if st.plain && len(st.guards) == 1 && quoteTest(st.d, st.guards[0]) == side {
+				good = st
+			}
+		}
+		if good != nil {
+			c.OK(rule, key, good.pos, "padded under a test of the "+side+" character alone")
+			continue
+		}
+		var gl []string
+		for _, g := range sites[0].guards {
+			gl = append(gl, types.ExprString(g))
+		}
+		c.Bad(rule, key, sites[0].pos, "the padding is applied only under `"+strings.Join(gl, " ∧ ")+"`: for the other comments with a "+side+" double quote the closing delimiter becomes `\"\"\"\"` (SyntaxError: unterminated string literal in the generated module)")
 	}
 }
 
